@@ -33,6 +33,10 @@ def field_eq(t, got, exp):
     return type(got) is str and got == exp
 
 
+class Label(str):
+    """a subclass of str (values of str-typed fields may be instances of it)"""
+
+
 NT_DEFAULTS = {'int': -1, 'float': 0.5, 'bool': True, 'str': 'n/a'}
 
 
@@ -63,7 +67,7 @@ class C18(Check):
     stubs = ['simulated disk / file objects handed in through the documented open_obj seam (short reads)', 'transport re-cutting the character stream',
              'final subscriber']
     assumptions = ['strings contain neither \\n nor \\r', 'the header line is written (header=True) and the matching schema, separator and escape char are used for loading']
-    probe_names = ('schema_is_NamedTuple_class', 'read_back_inside_completion', 'str_spells_other_type', 'zwnbsp_in_str', 'path:mem', 'path:file', 'short_reads', 'file>64KiB', 'negative_float', 'str_ends_with_escape', 'sep_in_str', 'quote_in_str',
+    probe_names = ('str_subclass_values', 'schema_is_NamedTuple_class', 'read_back_inside_completion', 'str_spells_other_type', 'zwnbsp_in_str', 'path:mem', 'path:file', 'short_reads', 'file>64KiB', 'negative_float', 'str_ends_with_escape', 'sep_in_str', 'quote_in_str',
                    'multi_char_sep', 'blank_edges', 'empty_str', 'cut_inside_line')
     quick_cap = 150000
 
@@ -95,6 +99,9 @@ class C18(Check):
             rows.append(row)
         path = rng.choice(['mem', 'file', 'file'])
         case = {'cols': cols, 'rows': rows, 'sep': sep, 'esc': esc, 'path': path, 'cutseed': rng.randrange(1 << 30)}
+        if rng.random() < 0.15:
+            # string fields whose values are instances of a subclass of str (a user class, numpy.str_)
+            case['strsub'] = rng.choice(['cls', 'np'])
         if rng.random() < 0.3:
             # the schema as a typing.NamedTuple class, with or without default values for its last fields
             case['schema'] = rng.choice(['nt', 'ntd', 'ntd'])
@@ -124,7 +131,7 @@ class C18(Check):
                         return False
                     if t == 'str' and (type(v) is not str or '\n' in v or '\r' in v):
                         return False
-            if case.get('schema', 'list') not in ('list', 'nt', 'ntd'):
+            if case.get('schema', 'list') not in ('list', 'nt', 'ntd') or case.get('strsub') not in (None, 'cls', 'np'):
                 return False
             return case['path'] in ('mem', 'file')
         except (KeyError, TypeError):
@@ -143,6 +150,11 @@ class C18(Check):
             X = dtype = nt_class(names, cols, schema == 'ntd')
             p['schema_is_NamedTuple_class'] += 1
         rows = [X(*r) for r in case['rows']]
+        if case.get('strsub'):
+            import numpy as np
+            sub = Label if case['strsub'] == 'cls' else np.str_
+            rows = [X(*[sub(v) if type(v) is str else v for v in r]) for r in rows]
+            p['str_subclass_values'] += 1
         sep, esc = case['sep'], case['esc']
         parser = csv.create_line_parser(dtype=dtype, separator=sep, escapechar=esc)
         p['path:' + case['path']] += 1
